@@ -77,7 +77,7 @@ long SolverOpts::nodes() const
 {
     long nr = (1L << nr_exp) + 1;
     if (aniso > 0)
-        nr = nr * 2; // generous estimate: anisotropic refinement adds nodes
+        nr = aniso >= 3 ? nr * 13 / 4 : nr * 2; // upper estimate of what the anisotropic refinement adds (measured: 2x, 3.2x)
     long nt;
     if (ntheta_exp < 0) {
         long p = 1;
@@ -89,6 +89,28 @@ long SolverOpts::nodes() const
         nt = 1L << ntheta_exp;
     long f = 1L << divideBy2;
     return ((nr - 1) * f + 1) * (nt * f);
+}
+
+void bound_cost(SolverOpts& o, long max_nodes, long max_coarsest)
+{
+    // the sparse LU of the coarsest level is the one super-linear cost of a run: keep the (generously estimated) grid
+    // and the coarsest level small enough that a plan is seconds, not hours, of simulated execution
+    while (o.nodes() > max_nodes) {
+        if (o.divideBy2 > 0)
+            o.divideBy2--;
+        else if (o.aniso > 0)
+            o.aniso = 0;
+        else if (o.ntheta_exp > 3)
+            o.ntheta_exp--;
+        else if (o.nr_exp > 2)
+            o.nr_exp--;
+        else
+            break;
+    }
+    if (o.max_levels >= 1) {
+        while (o.max_levels < 8 && (o.nodes() >> (2 * (o.max_levels - 1))) > max_coarsest)
+            o.max_levels++;
+    }
 }
 
 void apply_opts(GMGPolar& s, const SolverOpts& o)
@@ -183,6 +205,7 @@ SolverOpts gen_opts(Rng& g, long max_nodes, bool c01_set)
     o.reduction                = reds[g.below(5)];
     o.with_exact               = g.chance(0.7);
     o.verbose                  = 1;
+    bound_cost(o, max_nodes, 2600);
     return o;
 }
 
